@@ -918,6 +918,16 @@ impl LineBuffer {
         self.buf.drain(range)
     }
 
+    /// Where `Movement::ViFirstPrint` (vi `^`) ends: the first non-blank
+    /// character when the buffer starts with blanks, its start otherwise.
+    fn vi_first_print_pos(&self) -> Option<usize> {
+        if self.buf.starts_with(char::is_whitespace) {
+            self.next_word_pos(0, At::Start, Word::Big, 1)
+        } else {
+            Some(0)
+        }
+    }
+
     /// Return the content between current cursor position and `mvt` position.
     /// Return `None` when the buffer is empty or when the movement fails.
     #[must_use]
@@ -947,8 +957,13 @@ impl LineBuffer {
                 if self.pos == 0 {
                     None
                 } else {
-                    self.next_word_pos(0, At::Start, Word::Big, 1)
-                        .map(|pos| self.buf[pos..self.pos].to_owned())
+                    self.vi_first_print_pos().map(|pos| {
+                        if pos <= self.pos {
+                            self.buf[pos..self.pos].to_owned()
+                        } else {
+                            self.buf[self.pos..pos].to_owned()
+                        }
+                    })
                 }
             }
             Movement::EndOfLine => {
